@@ -8,14 +8,21 @@ type drop interface {
 	ToLiquid() any
 }
 
+// maxDropDepth bounds how many Drops in a row ToLiquid follows, so that a Drop that
+// (wrongly) yields itself ends instead of spinning.
+const maxDropDepth = 64
+
 // ToLiquid converts an object to Liquid, if it implements the Drop interface.
+// A Drop may yield another Drop; the result is the first value that is not one.
 func ToLiquid(value any) any {
-	switch value := value.(type) {
-	case drop:
-		return value.ToLiquid()
-	default:
-		return value
+	for range maxDropDepth {
+		d, ok := value.(drop)
+		if !ok {
+			break
+		}
+		value = d.ToLiquid()
 	}
+	return value
 }
 
 type dropWrapper struct {
